@@ -51,6 +51,19 @@ unsafe impl GlobalAlloc for Counting {
 #[global_allocator]
 static GLOBAL: Counting = Counting;
 
+/// Switches allocation counting off for the duration of instrumented user
+/// code (element traits, iterator, closure): what the harness's own
+/// bookkeeping allocates is not an allocation of the crate.
+struct Pause(bool);
+fn pause() -> Pause {
+    Pause(COUNT_ON.swap(false, AO::Relaxed))
+}
+impl Drop for Pause {
+    fn drop(&mut self) {
+        COUNT_ON.store(self.0, AO::Relaxed);
+    }
+}
+
 /// Runs a call into the crate with allocation counting switched on.
 #[inline(always)]
 fn meas<R>(f: impl FnOnce() -> R) -> R {
@@ -187,6 +200,7 @@ impl E {
 
 impl Drop for E {
     fn drop(&mut self) {
+        let _p = pause();
         let ph = phase();
         if ph == 2 {
             return;
@@ -204,6 +218,7 @@ impl Drop for E {
 
 impl Clone for E {
     fn clone(&self) -> E {
+        let _p = pause();
         if phase() == 2 {
             return E { id: self.id, val: self.val };
         }
@@ -218,6 +233,7 @@ impl Clone for E {
 
 impl PartialEq for E {
     fn eq(&self, o: &E) -> bool {
+        let _p = pause();
         if phase() == 0 {
             self.touch("eq");
             log(format!("Q{}={}", self.s(), o.s()));
@@ -229,6 +245,7 @@ impl PartialEq for E {
 impl Eq for E {}
 impl PartialOrd for E {
     fn partial_cmp(&self, o: &E) -> Option<std::cmp::Ordering> {
+        let _p = pause();
         if phase() == 0 {
             self.touch("cmp");
             log(format!("M{}?{}", self.s(), o.s()));
@@ -239,6 +256,7 @@ impl PartialOrd for E {
 }
 impl Ord for E {
     fn cmp(&self, o: &E) -> std::cmp::Ordering {
+        let _p = pause();
         if phase() == 0 {
             self.touch("cmp");
             log(format!("M{}?{}", self.s(), o.s()));
@@ -249,6 +267,7 @@ impl Ord for E {
 }
 impl Hash for E {
     fn hash<H: Hasher>(&self, h: &mut H) {
+        let _p = pause();
         if phase() == 0 {
             self.touch("hash");
             log(format!("H{}", self.s()));
@@ -259,6 +278,7 @@ impl Hash for E {
 }
 impl fmt::Debug for E {
     fn fmt(&self, f: &mut fmt::Formatter<'_>) -> fmt::Result {
+        let _p = pause();
         if phase() == 0 {
             self.touch("fmt");
             log(format!("T{}", self.s()));
@@ -284,6 +304,7 @@ impl Elem for E {
         Some(self.id)
     }
     fn from_closure() -> E {
+        let _p = pause();
         fault_check(K_CALL);
         let n = E { id: fresh_id(), val: 9 };
         live_insert(n.id);
@@ -331,6 +352,7 @@ struct Z;
 
 impl Drop for Z {
     fn drop(&mut self) {
+        let _p = pause();
         let ph = phase();
         if ph == 2 {
             return;
@@ -344,6 +366,7 @@ impl Drop for Z {
 }
 impl Clone for Z {
     fn clone(&self) -> Z {
+        let _p = pause();
         if phase() == 2 {
             return Z;
         }
@@ -367,6 +390,7 @@ impl Elem for Z {
         "0:0".to_string()
     }
     fn from_closure() -> Z {
+        let _p = pause();
         fault_check(K_CALL);
         ZLIVE.with(|z| z.set(z.get() + 1));
         log("F0:0".to_string());
@@ -519,6 +543,7 @@ struct FaultIter<T: Elem>(std::vec::IntoIter<T>);
 impl<T: Elem> Iterator for FaultIter<T> {
     type Item = T;
     fn next(&mut self) -> Option<T> {
+        let _p = pause();
         log("X".to_string());
         fault_check(K_NEXT);
         self.0.next()
@@ -532,6 +557,7 @@ impl Hasher for RecHasher {
     }
     fn write(&mut self, _b: &[u8]) {}
     fn write_usize(&mut self, n: usize) {
+        let _p = pause();
         log(format!("HL{}", n));
     }
     fn write_u64(&mut self, _n: u64) {}
